@@ -361,6 +361,16 @@ def kwargs_chain(t):
             rec(x.a[2], conds + [(x.a[0], False)])
         elif x.op in ("loop", "loopvar"):
             pass
+        elif x.op == "call" and call_name(x) == "builtins.dict" and len(x.a[1]) == 1 and any(k == "**" for k, _ in x.a[2]) and x.a[1][0].op == "dict":
+            # dict({key: value}, **kwargs): the caller's keywords win; the literal entries are only defaults
+            for k, v in x.a[2]:
+                if k == "**":
+                    rec(v, conds)
+            for kv in x.a[1][0].a:
+                out.append(("method:setdefault", tm.none(), tm.tup([kv.a[0], kv.a[1]]), tuple(conds)))
+            for k, v in x.a[2]:
+                if k != "**":
+                    out.append(("setitem", tm.const(k), v, tuple(conds)))
         elif x.op == "call" and call_name(x) == "builtins.dict" and len(x.a[1]) == 1:
             # dict(kwargs, key=value, ...): a copy of the chain with the keywords stored last
             rec(x.a[1][0], conds)
